@@ -12,6 +12,9 @@ EXACT = {"CONV_2D", "DEPTHWISE_CONV_2D", "FULLY_CONNECTED", "MAX_POOL_2D", "RELU
          "QUANTIZE", "RESHAPE", "CONCATENATION", "SPLIT", "STRIDED_SLICE", "SLICE", "PAD", "SQUEEZE", "EXPAND_DIMS", "DEPTH_TO_SPACE", "NEG", "CUSTOM",
          "LEAKY_RELU", "ABS", "TRANSPOSE", "RESIZE_NEAREST_NEIGHBOR", "TRANSPOSE_CONV"}
 APPROX = {"AVERAGE_POOL_2D", "RESIZE_BILINEAR", "LOGISTIC", "TANH", "HARD_SWISH", "MEAN", "SOFTMAX"}
+# operators the property statement names in neither list: memory-only ones are exact; table-driven / composed ones are judged to one step
+EXACT |= {"PACK", "UNPACK", "SPLIT_V", "SHAPE", "ARG_MAX"}
+APPROX |= {"SQUARED_DIFFERENCE", "LOG", "SQRT", "GELU", "EXP", "RSQRT", "PRELU"}
 # LEAKY_RELU is implemented by Vela with the reference's own integer arithmetic; counted exact
 
 RANGE = {"int8": (-128, 127), "uint8": (0, 255), "int16": (-32768, 32767), "int32": (-(1 << 31), (1 << 31) - 1)}
@@ -346,6 +349,66 @@ def eval_op(op, ins, t_in, t_out):
     if name == "TRANSPOSE":
         perm = [int(v) for v in np.asarray(ins[1]).reshape(-1)]
         return [ins[0].transpose(perm)]
+    if name == "PACK":
+        return [np.stack([i for i in ins], axis=o.get("Axis", 0))]
+    if name == "UNPACK":
+        ax = o.get("Axis", 0)
+        return [np.take(ins[0], k, axis=ax) for k in range(ins[0].shape[ax])]
+    if name == "SPLIT_V":
+        sizes = [int(v) for v in np.asarray(ins[1]).reshape(-1)]
+        ax = int(np.asarray(ins[2]).reshape(-1)[0])
+        if -1 in sizes:
+            sizes[sizes.index(-1)] = ins[0].shape[ax] - (sum(sizes) + 1)
+        return list(np.split(ins[0], np.cumsum(sizes)[:-1], axis=ax))
+    if name == "SHAPE":
+        return [np.asarray(ins[0].shape, dtype=np.int64)]
+    if name == "ARG_MAX":
+        ax = int(np.asarray(ins[1]).reshape(-1)[0])
+        return [np.argmax(ins[0], axis=ax).astype(np.int64)]
+    if name == "SQUARED_DIFFERENCE":
+        # TFLite reference (squared_difference.cc): left shift 7 (int8) / 0 (int16), operands rescaled to twice the larger input scale
+        if dt != "int8":
+            raise Unsupported("SQUARED_DIFFERENCE %s" % dt)  # the 16-bit reference squares a 17-bit difference in 32 bits: undefined on overflow
+        a, b = np.broadcast_arrays(ins[0], ins[1])
+        q1, q2 = t_in[0]["quant"], t_in[1]["quant"]
+        lo, hi = RANGE[dt]
+        ls = 0 if dt == "int16" else 7
+        s1, s2, so = (float(np.float64(np.float32(q["scale"][0]))) for q in (q1, q2, yq))
+        twice = 2.0 * max(s1, s2)
+        m1, e1 = Q.quantize_multiplier(s1 / twice)
+        m2, e2 = Q.quantize_multiplier(s2 / twice)
+        mo, eo = Q.quantize_multiplier((twice * twice) / ((1 << (2 * ls)) * so))
+        v1 = mbqm_arr((a - q1["zp"][0]) * (1 << ls), m1, e1)
+        v2 = mbqm_arr((b - q2["zp"][0]) * (1 << ls), m2, e2)
+        d = v1 - v2
+        return [np.clip(mbqm_arr(d * d, mo, eo) + yq["zp"][0], lo, hi)]
+    if name in ("LOG", "SQRT", "GELU", "EXP", "RSQRT"):
+        if dt != "int8":
+            raise Unsupported("%s %s" % (name, dt))
+
+        def fn(r):
+            with np.errstate(all="ignore"):
+                if name == "LOG":
+                    return np.where(r > 0, np.log(np.where(r > 0, r, 1.0)), -1e30)
+                if name == "SQRT":
+                    return np.sqrt(np.maximum(r, 0.0))
+                if name == "EXP":
+                    return np.exp(r)
+                if name == "RSQRT":
+                    return np.where(r > 0, 1.0 / np.sqrt(np.where(r > 0, r, 1.0)), 1e30)
+                if o.get("Approximate"):
+                    return 0.5 * r * (1.0 + np.tanh(math.sqrt(2.0 / math.pi) * (r + 0.044715 * r ** 3)))
+                return 0.5 * r * (1.0 + np.vectorize(math.erf)(r / math.sqrt(2.0)))
+        return [real_unary(ins[0], t_in[0]["quant"], yq, dt, fn)]
+    if name == "PRELU":
+        xq, aq = t_in[0]["quant"], t_in[1]["quant"]
+        lo, hi = RANGE[dt]
+        s_in, s_a, s_out = (float(np.float64(np.float32(q["scale"][0]))) for q in (xq, aq, yq))
+        m1, e1 = Q.quantize_multiplier(s_in / s_out)
+        m2, e2 = Q.quantize_multiplier(s_in * s_a / s_out)
+        x, a = np.broadcast_arrays(ins[0], ins[1])
+        v = x - xq["zp"][0]
+        return [np.clip(np.where(v >= 0, mbqm_arr(v, m1, e1), mbqm_arr(v * (a - aq["zp"][0]), m2, e2)) + yq["zp"][0], lo, hi)]
     if name == "CUSTOM" and op["custom_code"] != "ethos-u":
         lo, hi = RANGE.get(dt, (-(1 << 31), (1 << 31) - 1))
         return [np.clip(lo + hi - ins[0], lo, hi)]  # uninterpreted third-party op: a fixed bijection of the code range
